@@ -2,7 +2,8 @@
 
 The "nodes" are fresh interpreters; a configuration is
 (PYTHONHASHSEED, ASLR off via `setarch -R`, environment padding length,
-allocator = pymalloc | malloc).
+allocator = pymalloc | malloc, PYTHONOPTIMIZE, order in which the interpreter
+processes its batch of documents).
 For every generated document every configuration must produce byte-identical
 module text, JSON text and class names; a subset is also run through the real
 command line and stdout compared byte for byte.
@@ -257,7 +258,39 @@ def is_nontrivial(doc, ext):
     return any(len(places) >= 2 for places in titled.values())
 
 
+def _titled_objects(node, out):
+    if isinstance(node, dict):
+        if isinstance(node.get("title"), str) and (
+            node.get("type") == "object" or "properties" in node
+        ):
+            out.append(node)
+        for val in node.values():
+            _titled_objects(val, out)
+    elif isinstance(node, list):
+        for val in node:
+            _titled_objects(val, out)
+
+
 def gen_document(seed, index):
+    """Document `index`.  Every 6th document is a *sibling* of its
+    predecessor: identical except for the title of one nested object, so the
+    two contain classes that are equal in name/properties/structure up to the
+    name of a nested class - the situation in which any memo keyed on class
+    equality or hash would hand one document the other's output."""
+    if index % 6 == 5:
+        doc, ext, feats = gen_document(seed, index - 1)
+        rng = rng_for(seed, PROP, index, "sibling")
+        doc = copy.deepcopy(doc)
+        titled = []
+        for sub in doc.get("properties", {}).values():
+            _titled_objects(sub, titled)
+        for sub in doc.get("definitions", {}).values():
+            _titled_objects(sub, titled)
+        if titled:
+            victim = rng.choice(titled)
+            victim["title"] = rng.choice([t for t in TITLES + ["Other", "Renamed"] if t != victim["title"]])
+            feats = sorted(set(feats) | {"sibling_of_previous"})
+        return doc, ext, feats
     rng = rng_for(seed, PROP, index)
     gen = DocGen(rng)
     doc, ext = gen.document()
@@ -349,6 +382,9 @@ def choose_configs(seed, count):
             "pad": rng.choice([0, 17, 256, 1031, 4099, 8192, 20000, 50000, 100000]),
             "malloc": rng.choice(["", "", "malloc"]),
             "optimize": rng.choice([0, 0, 0, 2]),
+            # what else the process has done is part of its configuration:
+            # each interpreter processes its batch in its own order
+            "order": rng.randint(1, 10**6),
         }
         for hs in chosen
     ]
@@ -357,8 +393,8 @@ def choose_configs(seed, count):
 
 def run_config(config, batch_path, full=False, timeout=1800):
     cmd = setarch_prefix() + [PYTHON, CHILD, common.REPO, batch_path]
-    if full:
-        cmd.append("full")
+    cmd.append("full" if full else "hash")
+    cmd.append(str(config.get("order", 0)))
     proc = subprocess.run(
         cmd, env=child_env(config), capture_output=True, text=True, timeout=timeout
     )
@@ -465,27 +501,71 @@ def minimise_doc(doc, ext, conf_a, conf_b, budget_s):
     return current["doc"], current.get("ext")
 
 
-def replay(doc, path):
-    """Re-run the two disagreeing configurations on the stored document."""
-    workdir = tempfile.mkdtemp(prefix="c09rep_")
+def run_orders(documents, configs, orders, full=False):
+    """Run each configuration on the documents in its own explicit order.
+    documents: [(id, doc, ext)]; orders: per configuration a list of ids."""
+    by_id = {d[0]: d for d in documents}
+    workdir = tempfile.mkdtemp(prefix="c09run_")
     try:
-        case = doc["case"]
-        batch = write_docs(workdir, [("replay", case["document"], case.get("ext"))])
-        bpath = os.path.join(workdir, "batch.json")
-        with open(bpath, "w", encoding="utf8") as fh:
-            json.dump(batch, fh)
-        res = [run_config(conf, bpath, full=True) for conf in case["configs"]]
+        write_docs(workdir, documents)
+        results = []
+        for idx, (conf, order) in enumerate(zip(configs, orders)):
+            batch = {
+                "docs": [
+                    {"id": doc_id, "uri": os.path.join(workdir, f"{doc_id}.json") + "#/"}
+                    for doc_id in order
+                    if doc_id in by_id
+                ]
+            }
+            bpath = os.path.join(workdir, f"batch_{idx}.json")
+            with open(bpath, "w", encoding="utf8") as fh:
+                json.dump(batch, fh)
+            conf = dict(conf)
+            conf["order"] = 0  # the order is explicit here
+            results.append(run_config(conf, bpath, full=full))
     finally:
         shutil.rmtree(workdir, ignore_errors=True)
-    bad = disagreements(res)
-    if not bad:
+    return results
+
+
+def target_disagrees(documents, configs, orders, target):
+    res = run_orders(documents, configs, orders)
+    first = res[0]["docs"].get(target)
+    return any(r["docs"].get(target) != first for r in res[1:])
+
+
+def replay(doc, path):
+    """Re-run the disagreeing configurations on the stored documents, each
+    configuration processing them in its recorded order."""
+    case = doc["case"]
+    documents = [(d["id"], d["document"], d.get("ext")) for d in case["documents"]]
+    res = run_orders(documents, case["configs"], case["orders"], full=True)
+    target = case["target"]
+    first = res[0]["docs"].get(target)
+    differing = [
+        part
+        for part in ("py", "json", "names")
+        if any(r["docs"].get(target, {}).get(part) != (first or {}).get(part) for r in res[1:])
+    ]
+    if not differing:
         print(f"replay: configurations agree for {path}")
         return 0
-    print(f"replay: configurations disagree on {bad['replay']}")
-    for conf, out in zip(case["configs"], res):
-        print(f"--- {conf}: names={out['docs']['replay'].get('names')}")
+    print(f"replay: configurations disagree on {differing} for document {target}")
+    for conf, order, out in zip(case["configs"], case["orders"], res):
+        print(f"--- {conf} order={order}: names={out['docs'].get(target, {}).get('names')}")
     print(f"VIOLATION property={PROP} replay={path}")
     return 1
+
+
+def shuffled_ids(ids, order_seed):
+    """The order in which a child with this `order` seed processes `ids`
+    (same algorithm as c09_child.py)."""
+    import random
+
+    ids = list(ids)
+    if order_seed:
+        random.Random(order_seed).shuffle(ids)
+    return ids
 
 
 # --------------------------------------------------------------------------
@@ -519,7 +599,9 @@ def _check(tier, seed, n_docs, configs, orders_reachable, n_cli, n_cli_conf, wor
             nontrivial[f"d{index}"] = common.digest_of([doc, ext])
     # split into batches so all cores are busy: one (config, chunk) per task
     n_chunks = max(1, min(16, n_docs // 25))
-    chunks = [docs[i::n_chunks] for i in range(n_chunks)]
+    size = -(-len(docs) // n_chunks)
+    # contiguous chunks: sibling documents are processed by the same interpreter
+    chunks = [docs[i : i + size] for i in range(0, len(docs), size)]
     batch_paths = []
     for cidx, chunk in enumerate(chunks):
         batch = write_docs(workdir, chunk)
@@ -558,6 +640,15 @@ def _check(tier, seed, n_docs, configs, orders_reachable, n_cli, n_cli_conf, wor
         if any(o != outs_d[0] for o in outs_d[1:]):
             cli_bad.append(d[0])
             bad.setdefault(d[0], []).append("cli_stdout")
+        # a command-line run is a process that did nothing else: its output
+        # must equal what the batch interpreters produced for this document
+        batch_py = per_config[0]["docs"][d[0]].get("py", "")
+        if not str(outs_d[0]).startswith("EXC:") and not batch_py.startswith("EXC:"):
+            import hashlib
+
+            if hashlib.sha256(outs_d[0].encode("utf8")).hexdigest() != batch_py:
+                cli_bad.append(d[0])
+                bad.setdefault(d[0], []).append("cli_vs_batch")
     # ---- violations ------------------------------------------------------
     findings = load_known_findings()
     exit_code = 0
@@ -568,6 +659,10 @@ def _check(tier, seed, n_docs, configs, orders_reachable, n_cli, n_cli_conf, wor
     )
     by_id = {d[0]: d for d in docs}
     budget = 60 if tier == "quick" else 240
+    chunk_of = {}
+    for chunk in chunks:
+        for d in chunk:
+            chunk_of[d[0]] = chunk
     for doc_id in sorted(bad, key=lambda k: len(json.dumps(by_id[k][1:])))[:2]:
         _, doc, ext = by_id[doc_id]
         # two disagreeing configurations
@@ -575,17 +670,63 @@ def _check(tier, seed, n_docs, configs, orders_reachable, n_cli, n_cli_conf, wor
         other = next(
             (i for i, pc in enumerate(per_config) if pc["docs"][doc_id] != ref), None
         )
-        if other is None:  # only the CLI disagreed
+        if other is None:  # only the CLI disagreed with the batch result
             other = 1
         conf_a, conf_b = configs[0], configs[other]
-        small, small_ext = minimise_doc(doc, ext, conf_a, conf_b, budget)
+        deadline = time.time() + budget
+        if target_disagrees([(doc_id, doc, ext)], [conf_a, conf_b], [[doc_id], [doc_id]], doc_id):
+            # depends on the interpreter configuration alone: minimise the document
+            small, small_ext = minimise_doc(doc, ext, dict(conf_a, order=0), dict(conf_b, order=0), budget)
+            documents = [{"id": "replay", "document": small, "ext": small_ext}]
+            orders = [["replay"], ["replay"]]
+            target = "replay"
+            kind = "configuration"
+        else:
+            # depends on what else the interpreter processed before: keep the
+            # target, delta-debug the rest of its batch
+            chunk = chunk_of[doc_id]
+            ids = [d[0] for d in chunk]
+            orders = [shuffled_ids(ids, conf_a.get("order", 0)), shuffled_ids(ids, conf_b.get("order", 0))]
+            others = [i for i in ids if i != doc_id]
+
+            def test(kept, orders=orders, chunk=chunk):
+                keep = set(kept) | {doc_id}
+                docs_k = [d for d in chunk if d[0] in keep]
+                ords = [[i for i in o if i in keep] for o in orders]
+                return target_disagrees(docs_k, [conf_a, conf_b], ords, doc_id)
+
+            from sim.minimise import ddmin_list
+
+            if test(others):
+                kept = ddmin_list(others, test, deadline)
+                if not test(kept):
+                    kept = others
+            else:
+                kept = others
+            keep = set(kept) | {doc_id}
+            documents = [
+                {"id": d[0], "document": d[1], "ext": d[2]} for d in chunk if d[0] in keep
+            ]
+            orders = [[i for i in o if i in keep] for o in orders]
+            target = doc_id
+            small, small_ext = doc, ext
+            kind = "history"
         replay_doc = {
             "property": PROP,
             "engine": "P",
             "seed": seed,
             "run": int(doc_id[1:]),
-            "violation": {"invariant": "output_differs_across_configurations", "parts": bad[doc_id]},
-            "case": {"document": small, "ext": small_ext, "configs": [conf_a, conf_b]},
+            "violation": {
+                "invariant": "output_differs_across_configurations",
+                "depends_on": kind,
+                "parts": bad[doc_id],
+            },
+            "case": {
+                "documents": documents,
+                "orders": orders,
+                "target": target,
+                "configs": [conf_a, conf_b],
+            },
             "failing_docs": sorted(bad)[:50],
         }
         path = write_replay(PROP, f"{seed}-{doc_id}", replay_doc)
@@ -593,22 +734,11 @@ def _check(tier, seed, n_docs, configs, orders_reachable, n_cli, n_cli_conf, wor
             [PYTHON, os.path.join(common.VERIF, "bin", "check"), "replay", path],
             capture_output=True,
             text=True,
-            timeout=600,
+            timeout=900,
         )
         if proc.returncode != 1:
-            # fall back to the unminimised document
-            replay_doc["case"]["document"] = doc
-            replay_doc["case"]["ext"] = ext
-            path = write_replay(PROP, f"{seed}-{doc_id}", replay_doc)
-            proc = subprocess.run(
-                [PYTHON, os.path.join(common.VERIF, "bin", "check"), "replay", path],
-                capture_output=True,
-                text=True,
-                timeout=600,
-            )
-            if proc.returncode != 1:
-                print(f"HARNESS-ERROR: non-replayable violation {path}\n{proc.stdout[-1500:]}{proc.stderr[-1500:]}")
-                return 2
+            print(f"HARNESS-ERROR: non-replayable violation {path}\n{proc.stdout[-1500:]}{proc.stderr[-1500:]}")
+            return 2
         sig = {"invariant": "output_differs_across_configurations"}
         entry = None
         for cand in findings.get("open", []):
@@ -621,8 +751,8 @@ def _check(tier, seed, n_docs, configs, orders_reachable, n_cli, n_cli_conf, wor
             known_hit.append(entry.get("id", entry["what"]))
             continue
         print(
-            f"violation: {PROP} {len(bad)} document(s) differ across configurations; "
-            f"minimised document: {json.dumps(small)[:500]} ext: {json.dumps(small_ext)[:300]} parts={bad[doc_id]}"
+            f"violation: {PROP} {len(bad)} document(s) differ across configurations (depends on {kind}); "
+            f"minimised: {len(documents)} document(s), target: {json.dumps(small)[:400]} ext: {json.dumps(small_ext)[:200]} parts={bad[doc_id]}"
         )
         print(f"VIOLATION property={PROP} replay={path}")
         replays.append(path)
